@@ -13,6 +13,7 @@ CONSTANTS
   PerturbMode = "rewrites_none"
   HashMode = "ordered"
   SFSMode = "copies"
+  VectorMode = "copies"
   KernelMode = "stateless"
   MaxTable = 60
 SPECIFICATION Spec
